@@ -15,6 +15,7 @@ import (
 	"io"
 	"net"
 	"os"
+	"path/filepath"
 	"strings"
 	"testing"
 	"time"
@@ -183,6 +184,31 @@ func rawAddr(addr string) (string, string) {
 	return "tcp", strings.TrimPrefix(addr, "tcp://")
 }
 
+// badAddress draws an address of the transport that cannot be dialled or listened on (or, for a few
+// entries, that the transport happens to accept: then nothing has failed and the socket must simply
+// keep working).  No entry needs name resolution.
+func badAddress(t *rapid.T, tr string) string {
+	var pool []string
+	switch tr {
+	case "tcp", "tls+tcp":
+		pool = []string{"127.0.0.1:notaport", "", ":", "127.0.0.1", "127.0.0.1:", "127.0.0.1:99999", "127.0.0.1:-1", "[::1", "[::1]:x", "300.1.1.1:80", "127.0.0.1:80:90", "127.0.0.1:0x50", " 127.0.0.1:80", "127.0.0.1:80/path"}
+	case "ws", "wss":
+		pool = []string{"127.0.0.1:notaport/x", "", "/", "127.0.0.1", "127.0.0.1:99999/sp", "127.0.0.1:-1/sp", "[::1/sp", "300.1.1.1:80/sp", "127.0.0.1:80:90/sp", "%zz/sp", "127.0.0.1:1/%zz"}
+	case "ipc":
+		dir := fixture.ScratchDir()
+		n := rapid.IntRange(0, 1<<30).Draw(t, "n")
+		file := filepath.Join(dir, fmt.Sprintf("regular%d", n))
+		_ = os.WriteFile(file, []byte("not a socket"), 0o600)
+		sub := filepath.Join(dir, fmt.Sprintf("dir%d", n))
+		_ = os.MkdirAll(sub, 0o700)
+		long := filepath.Join(dir, strings.Repeat("x", 200))
+		pool = []string{"/nonexistent-dir-verif/x/y/z", file, sub, long, "", file + "/below-a-file"}
+	default:
+		return "inproc://" // accepted by inproc: not an error case
+	}
+	return tr + "://" + rapid.SampledFrom(pool).Draw(t, "badAddress")
+}
+
 func TestC12(t *testing.T) {
 	scenarios := []string{"tls-no-config", "tls-no-cert", "addr-in-use", "listen-twice", "dial-refused", "bad-address", "bad-scheme",
 		"handshake-garbage", "handshake-truncated", "handshake-fails-dialer", "hook-reject-listener", "hook-reject-dialer", "proto-reject", "proto-reject-dialer", "lost-after-attach",
@@ -338,16 +364,8 @@ func TestC12(t *testing.T) {
 		case "bad-address", "bad-scheme":
 			bad := map[string]string{"bad-scheme": "bogus://127.0.0.1:1", "bad-address": tr + "://"}[sc]
 			if sc == "bad-address" {
-				switch tr {
-				case "tcp", "tls+tcp":
-					bad = tr + "://127.0.0.1:notaport"
-				case "ws", "wss":
-					bad = tr + "://127.0.0.1:notaport/x"
-				case "ipc":
-					bad = "ipc:///nonexistent-dir-verif/x/y/z"
-				case "inproc":
-					bad = "inproc://" // accepted by inproc: not an error case
-				}
+				bad = badAddress(t, tr)
+				e.doc["bad_address"] = bad
 			}
 			err1, _ := e.call("sock.Dial(bad)", func() error { return S.DialOptions(bad, fixture.DialOpts(tr)) })
 			err2, _ := e.call("sock.Listen(bad)", func() error { return S.ListenOptions(bad, fixture.ListenOpts(tr)) })
